@@ -201,7 +201,10 @@ func surnameStartsWith(individual *gedcom.IndividualNode, letter rune) bool {
 
 func individualForNode(doc *gedcom.Document, node gedcom.Node) *gedcom.IndividualNode {
 	for _, individual := range doc.Individuals() {
-		if gedcom.HasNestedNode(individual, node) {
+		// The node may be the individual itself (a place that is a direct child
+		// of the individual is recorded against the individual).
+		if gedcom.Node(individual) == node ||
+			gedcom.HasNestedNode(individual, node) {
 			return individual
 		}
 	}
